@@ -36,6 +36,7 @@ def c05(tier, seed):
               {"module": "DQImpl", "tag": "recycle", "invariants": INV,
                "constants": consts(nodes=1, enq=4 if quick else 5, depth=2, ops={"al"} | QOPS, nest={"nq", "eq"})}]
     worlds = [world("dq_single_val", threading=0, arg=0),
+              world("dq_single_val_getevent_str", threading=0, arg=0, mode=3, key=1, fraction=0.3),     # key derived by a getEvent policy from a movable argument
               world("dq_multi_cref_str", threading=1, arg=1, key=1, fill="0xFF", fraction=0.3),
               world("dq_spin_val_hash", threading=2, arg=0, key=3, fill="0x00", fraction=0.15, callback=1)]
     if not quick:
